@@ -1482,6 +1482,77 @@ def _inv2d(a):
     return out
 
 
+def _chol2d(a):
+    """lower Cholesky factor of a symbolic symmetric matrix (the pivots' positivity is the recorded side condition of rsqrt)"""
+    n = a.shape[0]
+    L = np.empty((n, n), dtype=object)
+    for i in range(n):
+        for j in range(n):
+            L[i, j] = nf.ZERO
+    for j in range(n):
+        acc = a[j, j]
+        for k in range(j):
+            acc = acc - L[j, k] * L[j, k]
+        L[j, j] = nf.rsqrt(acc)
+        for i in range(j + 1, n):
+            acc = a[i, j]
+            for k in range(j):
+                acc = acc - L[i, k] * L[j, k]
+            L[i, j] = acc / L[j, j]
+    return L
+
+
+def _over_batch(a, f):
+    if a.ndim == 2:
+        return f(a)
+    out = np.empty(a.shape, dtype=object)
+    for ix in np.ndindex(*a.shape[:-2]):
+        out[ix] = f(a[ix])
+    return out
+
+
+def _cholesky(x, upper=False, **k):
+    a = _obj_f(x)
+    return ST(_over_batch(a, (lambda m: _chol2d(m).T.copy()) if upper else _chol2d))
+
+
+HANDLERS[torch.linalg.cholesky] = _cholesky
+HANDLERS[torch.cholesky] = _cholesky
+HANDLERS[torch.Tensor.cholesky] = _cholesky
+
+
+def _matmul2d(a, b):
+    n, m, r = a.shape[0], a.shape[1], b.shape[1]
+    out = np.empty((n, r), dtype=object)
+    for i in range(n):
+        for j in range(r):
+            acc = nf.ZERO
+            for k in range(m):
+                acc = acc + a[i, k] * b[k, j]
+            out[i, j] = acc
+    return out
+
+
+def _cholesky_inverse(x, upper=False, **k):
+    """torch.cholesky_inverse(u, upper): inverse of u u^T (lower) / u^T u (upper); only the named triangle of u is read"""
+    a = _obj_f(x)
+
+    def one(u):
+        n = u.shape[0]
+        t = np.empty((n, n), dtype=object)
+        for i in range(n):
+            for j in range(n):
+                keep = (j >= i) if upper else (j <= i)
+                t[i, j] = u[i, j] if keep else nf.ZERO
+        full = _matmul2d(t.T.copy(), t) if upper else _matmul2d(t, t.T.copy())
+        return _inv2d(full)
+    return ST(_over_batch(a, one))
+
+
+HANDLERS[torch.cholesky_inverse] = _cholesky_inverse
+HANDLERS[torch.Tensor.cholesky_inverse] = _cholesky_inverse
+
+
 @reg("det")
 def _det(x):
     a = _obj_f(x)
